@@ -23,6 +23,7 @@ import (
 	"unsafe"
 
 	"github.com/mdlayher/corerad/internal/config"
+	"github.com/mdlayher/corerad/internal/netstate"
 	"github.com/mdlayher/corerad/internal/system"
 	"github.com/mdlayher/sdnotify"
 	"verif.local/vlib"
@@ -531,6 +532,23 @@ func TestVerifC20(t *testing.T) {
 				r.Violation(id, "config-altered", fmt.Sprintf("after BuildTasks the configuration's interfaces read %v, before %v", after, before), map[string]any{"modes(0=advertise,1=monitor,2=neither)": modes, "debug": debug})
 				return
 			}
+			// every interface that gets a task also gets the link watcher's attention:
+			// a link change must reach its task (found by shape: the server's
+			// *netstate.Watcher and its map keyed by interface name)
+			// (judged only when BuildTasks subscribes at all: a server that subscribes
+			// later, when a task starts, has nothing to show here)
+			if subs, ok := c20Subscribed(srv); ok && len(subs) > 0 {
+				for _, ifi := range cfg.Interfaces {
+					if (ifi.Advertise || ifi.Monitor) && !subs[ifi.Name] {
+						r.Violation(id, "task-without-link-subscription", fmt.Sprintf("interface %s (advertise=%v monitor=%v) has a task but no subscription to link-state changes: the task cannot be told that its link went down", ifi.Name, ifi.Advertise, ifi.Monitor),
+							map[string]any{"modes(0=advertise,1=monitor,2=neither)": modes, "debug": debug, "subscribed": fmt.Sprint(subs)})
+						return
+					}
+				}
+				r.Count("link_subscriptions_checked", 1)
+			} else {
+				r.Count("link_subscriptions_not_observable", 1)
+			}
 			if fmt.Sprint(got) != fmt.Sprint(want) {
 				r.Violation(id, "task-list", fmt.Sprintf("tasks %q, want %q", got, want), map[string]any{"modes(0=advertise,1=monitor,2=neither)": modes, "debug": debug})
 			}
@@ -821,4 +839,31 @@ func c20StartupFailure(r *vlib.Run) {
 		}
 		r.Count("startup_failures_reported", 1)
 	}
+}
+
+// c20Subscribed reports for which interface names the server's link watcher has
+// subscribers.  The watcher is the field of type *netstate.Watcher, its
+// subscriptions the one map keyed by string (read-only reflection; no names).
+func c20Subscribed(srv *Server) (map[string]bool, bool) {
+	sv := reflect.ValueOf(srv).Elem()
+	for i := 0; i < sv.NumField(); i++ {
+		f := sv.Field(i)
+		if f.Type() != reflect.TypeOf((*netstate.Watcher)(nil)) || f.IsNil() {
+			continue
+		}
+		w := f.Elem()
+		for j := 0; j < w.NumField(); j++ {
+			m := w.Field(j)
+			if m.Kind() == reflect.Map && m.Type().Key().Kind() == reflect.String {
+				out := map[string]bool{}
+				for _, k := range m.MapKeys() {
+					if m.MapIndex(k).Len() > 0 {
+						out[k.String()] = true
+					}
+				}
+				return out, true
+			}
+		}
+	}
+	return nil, false
 }
